@@ -61,7 +61,8 @@ class Static(BaseComponent):
         if self.path is not None:
             path = path[len(self.path) :]
 
-        path = unquote(path.strip('/'))
+        # (an encoded slash must not turn the remainder into an absolute path, which os.path.join would not keep below docroot)
+        path = unquote(path.strip('/')).lstrip('/')
 
         if path:
             location = os.path.abspath(os.path.join(self.docroot, path))
